@@ -1,4 +1,4 @@
-(* C05 (partial: everything but termination) — For any well-behaved provider over a finite registry, resolve
+(* C05 — For any well-behaved provider over a finite registry, resolve
    returns Ok or NoSolution [...]; it does not panic [...] or return PubGrubError::Failure.
 
    For every lawful VersionSet WITH ATOMIC SINGLETONS (the extra law [singleton_atomic]: over the semantic
@@ -9,7 +9,21 @@
    unreachable! / debug_assert! of the source), nor Failure("... we don't have a term"); if moreover every
    chosen version lies in the offered set, every outcome other than Ok / NoSolution / out of fuel / "the trace
    is not a run of the model" is an error answer of the provider passed on.
-   NOT covered: termination (the model has fuel; [OOutOfFuel] is not excluded), overflow.
+   TERMINATION (Proofs/SolverTerm1..6.v, SolverTerm.v): for a finite registry - a finite list of packages, and a
+   finite "ranked" subalgebra [Ranked] of version sets that contains the registry's dependency sets and the
+   singletons of its versions (for Range<V>: the ranges whose bounds lie in a finite list of values,
+   [range_ranked_terminates]; for the bitset: all sets) - every run consumes at most [Events0] provider events, a
+   number computed from the registry alone ([resolve_calls_bounded]: "after a bounded number of provider calls"),
+   and with at least [Fuel1] fuel (again a function of the registry alone) the model never runs out of fuel
+   ([resolve_never_out_of_fuel]: no loop of the algorithm runs forever - the fuel is an artefact of the model, and
+   by C07's [model_fuel_monotone] more fuel never changes a result).  [resolve_terminates_ok_or_nosolution] puts it
+   together: a well-behaved provider that answers inside the offered set and returns no error gets Ok or
+   NoSolution (or the recorded trace is not a complete run of the model: OMismatch/OPickNotMax).
+   The argument is the CDCL termination argument adapted to terms: every derivation strictly decreases the rank of
+   its package's term, and a bounded lexicographic potential over the decision levels strictly increases with
+   every derivation, backjump + derivation, and decision.
+   NOT covered: arithmetic overflow of the counters (the model uses unbounded naturals; the harness builds with
+   overflow checks and debug assertions on).
 
    Proof (Proofs/SolverNoPanic1.v, SolverNoPanic2.v, SolverNoPanic.v): state invariant [ninv] = the invariant
    [jinv] of C04 + no stored incompatibility has an "any" term + the index of incompatibilities only lists
@@ -17,9 +31,9 @@
    dated derivation of a package carries its smallest level + (over the universe U) accumulated terms shrink and
    every derivation is justified by its cause + a decision opens its level + only the root is assigned at level
    0 and decided at level 1 + queued packages are undecided with a positive term. *)
-From Coq Require Import List NArith Bool.
+From Coq Require Import List Arith NArith Bool.
 From PG Require Import Model.VS Model.Term Model.Solver Model.Registry Proofs.VSLaws Proofs.SolverSem
-  Proofs.SolverStore Proofs.SolverShared Proofs.SolverProto2 Proofs.SolverNoPanic1 Proofs.SolverNoPanic.
+  Proofs.SolverStore Proofs.SolverShared Proofs.SolverProto2 Proofs.SolverNoPanic1 Proofs.SolverNoPanic Proofs.SolverTerm1 Proofs.SolverTerm4 Proofs.SolverTerm.
 Import ListNotations.
 
 Section C05.
@@ -56,6 +70,62 @@ Section C05.
       \/ (exists k w, o = OMismatch k w) \/ (exists k p, o = OPickNotMax k p).
   Proof. intros Ha Hw Hv. exact (SolverNoPanic.resolve_ok_or_nosolution O L veqb reg r rv Ha Hw Hv). Qed.
 
+  (* ---------------------------------------------------------------- termination *)
+  Section Termination.
+    Variable R : Ranked O L.
+    Variable pkgs : list pkg.
+    (* a finite registry: finitely many packages, all its sets inside the finite ranked algebra *)
+    Definition finite_registry : Prop :=
+      In r pkgs
+      /\ (forall p v ds q s, reg_deps reg p v = Some ds -> In (q, s) ds -> In q pkgs)
+      /\ (forall p v ds q s, reg_deps reg p v = Some ds -> In (q, s) ds -> alg R s)
+      /\ (forall p v, In v (reg_versions reg p) -> alg R (vs_singleton O v))
+      /\ alg R (vs_singleton O rv).
+
+    Theorem resolve_calls_bounded :
+      singleton_atomic O L -> reg_wf O L reg -> (forall a b, veqb a b = true -> a = b) -> finite_registry ->
+      forall fuel (tr : list (event (VS := VS) (Vr := Vr))) o st log cnt,
+        WellBehaved O reg tr -> resolve O veqb fuel r rv tr = (o, st, log, cnt) ->
+        cnt <= Events0 O L R pkgs.
+    Proof.
+      intros Ha Hw Hv (H1 & H2 & H3 & H4 & H5).
+      exact (resolve_events_bounded O L veqb reg r rv Ha Hw Hv R pkgs H1 H2 H3 H4 H5).
+    Qed.
+
+    Theorem resolve_never_out_of_fuel :
+      singleton_atomic O L -> reg_wf O L reg -> (forall a b, veqb a b = true -> a = b) -> finite_registry ->
+      forall fuel (tr : list (event (VS := VS) (Vr := Vr))) o st log cnt,
+        WellBehaved O reg tr -> Fuel1 O L R pkgs <= fuel ->
+        resolve O veqb fuel r rv tr = (o, st, log, cnt) -> o <> OOutOfFuel.
+    Proof.
+      intros Ha Hw Hv (H1 & H2 & H3 & H4 & H5).
+      exact (resolve_no_fuel_exhaustion_uniform O L veqb reg r rv Ha Hw Hv R pkgs H1 H2 H3 H4 H5).
+    Qed.
+
+    Theorem resolve_terminates_ok_or_nosolution :
+      singleton_atomic O L -> reg_wf O L reg -> (forall a b, veqb a b = true -> a = b) -> finite_registry ->
+      forall fuel (tr : list (event (VS := VS) (Vr := Vr))) o st log cnt,
+        WellBehaved O reg tr ->
+        (forall p s v, In (EvChoose p s (CSome v)) tr -> vs_contains O s v = true) ->
+        (~ In (EvCancel false) tr /\ (forall p s, ~ In (EvChoose p s CErr) tr) /\ (forall p v, ~ In (EvDeps p v DErr) tr)) ->
+        Fuel1 O L R pkgs <= fuel ->
+        resolve O veqb fuel r rv tr = (o, st, log, cnt) ->
+        ((exists sol, o = OSolution sol) \/ (exists t, o = ONoSolution t)
+         \/ (exists k w, o = OMismatch k w) \/ (exists k p, o = OPickNotMax k p))
+        /\ cnt <= Events0 O L R pkgs.
+    Proof.
+      intros Ha Hw Hv (H1 & H2 & H3 & H4 & H5).
+      exact (resolve_terminates O L veqb reg r rv Ha Hw Hv R pkgs H1 H2 H3 H4 H5).
+    Qed.
+
+    (* the two bounds, unfolded: functions of the number of packages and of the rank bound only *)
+    Theorem bounds_unfold :
+      let Wt := 2 * S (rank_bound R) in let Pn := length pkgs in
+      let Bound := (Pn * Wt + 2) ^ S Pn in
+      Events0 O L R pkgs = (Pn + 3) * (2 * Bound + 1) /\ Fuel1 O L R pkgs = (2 * Bound + 4) + (2 * Bound + 1).
+    Proof. split; reflexivity. Qed.
+  End Termination.
+
   (* Failure is excluded already for ANY trace in which choose_version answers inside the offered set, with no
      hypothesis on the VersionSet beyond lawfulness (Proofs/SolverProto2.v) *)
   Theorem no_failure :
@@ -82,6 +152,29 @@ Module C05Z := C05Range ZV.
 Theorem bitset_has_atomic_singletons : singleton_atomic bitset_vs bitset_lawful.
 Proof. exact bitset_singleton_atomic. Qed.
 
+(* the finite ranked algebra exists for both instances: all bitsets; the ranges over a finite list of bound values *)
+From PG Require Import Proofs.SolverTermInst Proofs.SolverTermRange Proofs.SolverTermExample.
+Theorem bitset_is_ranked : exists R : Ranked bitset_vs bitset_lawful, forall s, alg R s <-> wf bitset_vs bitset_lawful s.
+Proof. exists bitset_ranked. intros s. reflexivity. Qed.
+Module C05RangeTerm (V : UsualOrderedTypeFull).
+  Module Import P := RangeTermP V.
+  Theorem range_ranked_terminates :
+    forall (bs : list V.t) (veqb : V.t -> V.t -> bool) (reg : @registry range V.t) (r : pkg) (rv : V.t) (pkgs : list pkg),
+      reg_wf range_vs range_lawful reg -> (forall a b, veqb a b = true -> a = b) ->
+      In r pkgs -> (forall p v ds q s, reg_deps reg p v = Some ds -> In (q, s) ds -> In q pkgs) ->
+      (forall p v ds q s, reg_deps reg p v = Some ds -> In (q, s) ds -> range_in bs s) ->
+      (forall p v, In v (reg_versions reg p) -> In v bs) -> In rv bs ->
+      forall fuel (tr : list (@event range V.t)) o st log cnt,
+        WellBehaved range_vs reg tr -> choose_contained range_vs tr -> no_error_answers tr ->
+        (Fuel1 range_vs range_lawful (range_ranked bs) pkgs <= fuel)%nat ->
+        resolve range_vs veqb fuel r rv tr = (o, st, log, cnt) ->
+        ((exists sol, o = OSolution sol) \/ (exists t, o = ONoSolution t)
+         \/ (exists k w, o = OMismatch k w) \/ (exists k p, o = OPickNotMax k p))
+        /\ (cnt <= Events0 range_vs range_lawful (range_ranked bs) pkgs)%nat.
+  Proof. exact range_resolve_terminates. Qed.
+End C05RangeTerm.
+Module C05ZTerm := C05RangeTerm ZV.
+
 (* ... and it cannot be dropped: a VersionSet that satisfies every law of [VSLawful] but whose singletons are not
    atomic makes the model panic on a well-behaved trace over a well-formed registry *)
 Theorem atomic_singletons_needed_refuted :
@@ -99,6 +192,12 @@ Print Assumptions resolve_no_panic.
 Print Assumptions resolve_no_term_failure.
 Print Assumptions resolve_ok_or_nosolution.
 Print Assumptions singleton_atomic_unfold.
+Print Assumptions resolve_calls_bounded.
+Print Assumptions resolve_never_out_of_fuel.
+Print Assumptions resolve_terminates_ok_or_nosolution.
+Print Assumptions bounds_unfold.
+Print Assumptions bitset_is_ranked.
+Print Assumptions C05ZTerm.range_ranked_terminates.
 Print Assumptions no_failure.
 Print Assumptions derivation_tree_always_built.
 Print Assumptions C05Z.range_has_atomic_singletons.
